@@ -86,8 +86,7 @@ def random_op(st, rng: random.Random, *, D, typed=False, kinds=(0,), xids=(0,), 
             p = rng.choice(parents)
             v = rng.random()
             if v < 0.5:
-                # (an int position beyond the list is not driven for add(tree): the order of the added nodes is doc-silent)
-                return {"name": "add_tree", "p": p, "deep": rng.random() < 0.6, "pos": random_pos(st, p, rng, oob=False)}
+                return {"name": "add_tree", "p": p, "deep": rng.random() < 0.6, "pos": random_pos(st, p, rng)}
             if v < 0.7:
                 return {"name": "tree_copy_to", "p": p, "deep": rng.random() < 0.6}
             if live:
